@@ -181,7 +181,7 @@ Proof.
     as (t1 & tp & head & Esr & Eb & Ew & Ec & En & _).
   destruct (start_response_ok lower _ _ _ _ _ Esr) as (_ & S2 & S3 & S4 & S5 & S6 & S7 & S8 & S9 & _).
   cbn [new_task t_rh t_wrote_header t_cof t_chunked t_cbw t_v11 str_of List.app] in *.
-  pose proof (start_response_no_cl lower (new_task (r_version r) false) (PStr status) hs None Hcl) as Hclen.
+  pose proof (start_response_no_cl lower (new_task (r_version r) false) (PStr status) hs None eq_refl Hcl) as Hclen.
   rewrite Esr in Hclen. cbn [fst new_task t_clen] in Hclen.
   assert (Hclean1 : task_clean t1).
   { pose proof (start_response_clean lower (new_task (r_version r) false) (PStr status) hs None) as G.
@@ -262,12 +262,14 @@ Proof.
   induction pre as [|[k w] pre IH]; intros t acc t' l Hpost Hn Hv H.
   - cbn [List.app sr_headers] in H.
     destruct (has_crlf v); [discriminate|]. destruct (has_crlf clname); [discriminate|].
+    destruct (negb (is_token clname)); [discriminate|].
     rewrite Hn, Hv in H.
     pose proof (sr_headers_no_cl lower post Hpost (set_clen (Some cl) t) (acc ++ [(clname, v)])) as F.
     rewrite H in F. cbn [fst t_clen set_clen] in F. exact F.
   - cbn [List.app sr_headers] in H.
     destruct k as [k|]; [|discriminate]. destruct w as [w|]; [|discriminate].
     destruct (has_crlf w); [discriminate|]. destruct (has_crlf k); [discriminate|].
+    destruct (negb (is_token k)); [discriminate|].
     destruct (beqb (lower k) (lit "content-length")).
     + destruct (py_int w); [|discriminate]. eapply IH; eauto.
     + destruct (existsb (beqb (lower k)) hop_by_hop); [discriminate|]. eapply IH; eauto.
@@ -571,7 +573,7 @@ Proof.
     as (t1 & tp & head & Esr & Eb & Ew & _).
   destruct (start_response_ok lower _ _ _ _ _ Esr) as (_ & S2 & S3 & S4 & S5 & S6 & S7 & S8 & S9 & _).
   cbn [new_task t_rh t_wrote_header t_cof t_chunked t_cbw t_v11 str_of List.app] in *.
-  pose proof (start_response_no_cl lower (new_task (r_version r) false) (PStr status) hs None Hcl) as Hclen.
+  pose proof (start_response_no_cl lower (new_task (r_version r) false) (PStr status) hs None eq_refl Hcl) as Hclen.
   rewrite Esr in Hclen. cbn [fst new_task t_clen] in Hclen.
   assert (Hclean1 : task_clean t1).
   { pose proof (start_response_clean lower (new_task (r_version r) false) (PStr status) hs None) as G.
